@@ -59,6 +59,9 @@ class Outcome:
         # keep up to 60 failures per failure class (leading [tag] or leading words) so that a large
         # class (e.g. one matched by a known finding) can never crowd out a different failure
         cls = why.split("]")[0] if why.startswith("[") else " ".join(why.split()[:4])
+        tag = why.rstrip()
+        if tag.endswith("}") and "{" in tag:  # a trailing {signature} (what a known finding matches) is its own class
+            cls += tag[tag.rindex("{"):]
         self._per_class = getattr(self, "_per_class", Counter())
         self._per_class[cls] += 1
         if self._per_class[cls] <= 60 and len(self.oracle_failures) < 3000:
